@@ -17,7 +17,7 @@ CONSTANTS
   Configs <- MConfigs
   MaxFaults = %(maxfaults)d
   MaxChanges = %(maxchanges)d
-INVARIANTS RecordAfterAlters Converged RerunIsNoOp
+INVARIANTS %(invs)s
 CHECK_DEADLOCK FALSE
 '''
 
@@ -27,7 +27,7 @@ CONSTANTS
   Configs <- MConfigs
   MaxFaults = 1000000
   MaxChanges = 1000000
-INVARIANTS RecordAfterAlters Converged RerunIsNoOp
+INVARIANTS RecordAfterAlters ConvergedModuloRevert RerunIsNoOp
 CONSTRAINT Accept
 %(diag)s
 CHECK_DEADLOCK FALSE
@@ -56,21 +56,31 @@ def run(tier):
             raise vlib.Infra('could not read the 8 setting groups off a recorded Rotate run: %s' % groups)
         # 1. model checking with the code's key assignment
         open(os.path.join(sd, 'MC_Rotate.tla'), 'w').write(data_module('MC_Rotate', 'Rotate', groups, configs[:4] if tier == 'quick' else configs[:6]))
-        open(os.path.join(sd, 'MC_Rotate.cfg'), 'w').write(CFG_MC % {'maxfaults': 1 if tier == 'quick' else 2, 'maxchanges': 1 if tier == 'quick' else 2})
-        dump = os.path.join(sd, 'cex.json')
-        res = vlib.tlc(SPECDIR, 'MC_Rotate.tla', 'MC_Rotate.cfg', timeout=2400,
-                       copy_extra=[os.path.join(sd, 'MC_Rotate.tla'), os.path.join(sd, 'MC_Rotate.cfg')], extra=['-dumpTrace', 'json', dump])
-        mc = {'states': res.get('distinct', 0), 'transitions': res.get('generated', 0), 'wall_s': round(res['wall'], 1), 'violated': res['violated']}
-        candidate = None
-        if res['violated'] and os.path.exists(dump):
-            cx = json.load(open(dump)).get('counterexample', {})
-            sts = [s[1] for s in cx.get('state', [])]
-            candidate = {'invariant': res['violated'][0], 'last_state': {k: sts[-1][k] for k in ('cfg', 'pc', 'gi', 'alters', 'clean')} if sts else {},
-                         'configs_seen': [s['cfg'] for i, s in enumerate(sts) if i == 0 or s['cfg'] != sts[i - 1]['cfg']]}
-        elif not res.get('finished'):
-            raise vlib.Infra('TLC did not finish: ' + res['out'][-1500:])
-        vlib.tlc_cleanup(res)
-        mc['candidate'] = candidate
+        def mc_run(invs, maxfaults, maxchanges):
+            open(os.path.join(sd, 'MC_Rotate.cfg'), 'w').write(CFG_MC % {'maxfaults': maxfaults, 'maxchanges': maxchanges, 'invs': invs})
+            dump = os.path.join(sd, 'cex.json')
+            if os.path.exists(dump):
+                os.remove(dump)
+            res = vlib.tlc(SPECDIR, 'MC_Rotate.tla', 'MC_Rotate.cfg', timeout=2400,
+                           copy_extra=[os.path.join(sd, 'MC_Rotate.tla'), os.path.join(sd, 'MC_Rotate.cfg')], extra=['-dumpTrace', 'json', dump])
+            m = {'invariants': invs, 'states': res.get('distinct', 0), 'transitions': res.get('generated', 0), 'wall_s': round(res['wall'], 1), 'violated': res['violated']}
+            cand = None
+            if res['violated'] and os.path.exists(dump):
+                cx = json.load(open(dump)).get('counterexample', {})
+                sts = [s[1] for s in cx.get('state', [])]
+                cand = {'invariant': res['violated'][0], 'last_state': {k: sts[-1][k] for k in ('cfg', 'pc', 'gi', 'alters', 'clean', 'torn')} if sts else {},
+                        'configs_seen': [s['cfg'] for i, s in enumerate(sts) if i == 0 or s['cfg'] != sts[i - 1]['cfg']]}
+            elif not res.get('finished'):
+                raise vlib.Infra('TLC did not finish: ' + res['out'][-1500:])
+            vlib.tlc_cleanup(res)
+            m['candidate'] = cand
+            return m
+        # 1a. everything the property demands except the one recorded divergence (see ConvergedModuloRevert)
+        mc = mc_run('RecordAfterAlters ConvergedModuloRevert RerunIsNoOp', 1 if tier == 'quick' else 2, 1 if tier == 'quick' else 2)
+        candidate = mc['candidate']
+        # 1b. the property as stated: TLC finds the revert-after-interrupted-change history; it must be the real code's too
+        mc_strict = mc_run('Converged', 1, 2)
+        strict_candidate = mc_strict['candidate']
         # 2. sweep of the real code
         swp = os.path.join(sd, 'sweep.json')
         trp = os.path.join(sd, 'trace.ndjson')
@@ -88,6 +98,13 @@ def run(tier):
                 viols.append({'property': 'C19', 'signature': c['signature'], 'msg': c['violation'], 'replay': path})
             elif sample is None and len(c['runs']) > 3:
                 sample = c
+        revert_real = {x for x in sigs_real if x.startswith('revert-after-interrupted-change')}
+        if strict_candidate and not revert_real and not (sigs_real - revert_real):
+            raise vlib.Infra('TLC reports %s on Rotate.tla (%s) but no run of the real Rotate reproduces it: the specification misrepresents the code'
+                             % (strict_candidate['invariant'], json.dumps(strict_candidate)))
+        if revert_real and not strict_candidate:
+            raise vlib.Infra('the real Rotate diverges after a reverted interrupted change but Rotate.tla does not: the specification misrepresents the code')
+        sigs_real = sigs_real - revert_real
         if candidate and not sigs_real:
             raise vlib.Infra('TLC reports %s on Rotate.tla (%s) but no run of the real Rotate reproduces it: the specification misrepresents the code'
                              % (candidate['invariant'], json.dumps(candidate)))
@@ -109,7 +126,7 @@ def run(tier):
                           'msg': 'statement log of the real Rotate is not a behaviour of Rotate.tla / violates an invariant: %s' % json.dumps(detail)[:400]})
         cov = {'states': mc['states'], 'transitions': mc['transitions'], 'traces_validated_against_impl': ntr,
                'samples': [sample or sweep['cases'][0], {'groups_with_keys_from_the_code': groups}],
-               'exhaustive': True, 'model_check': mc,
+               'exhaustive': True, 'model_check': mc, 'model_check_strict_converged': mc_strict,
                'sweep': {'cases': len(sweep['cases']), 'events': sweep.get('events')},
                'trace_validation': {'accepted': ok, 'tlc': st, 'detail': detail},
                'checker_cmd': 'c19 groups -> tlc MC_Rotate; c19 sweep -> semantic TTL/policy checks + tlc Trace_Rotate'}
